@@ -102,6 +102,14 @@ func c06Run(r *core.Run) {
 	arts[7] = c06Artifact{"qeidentity-signer", world.TQE, w.TcbSignerInQE.X.NotAfter, w.TcbSignerInQE.X.NotBefore, true, O1}
 	w.RootInQE = A.ReissueRoot(world.Window{NotBefore: early, NotAfter: exp(8)})
 	arts[8] = c06Artifact{"qeidentity-root-copy", world.TQE, w.RootInQE.X.NotAfter, early, false, O1}
+	if r.Index%3 == 1 {
+		// as the real PCS does: both documents carry the very same signer and root certificates;
+		// each document's copy is still judged at its own time
+		w.TcbSignerInQE, w.RootInQE = w.TcbSignerInTcb, w.RootInTcb
+		arts[7] = c06Artifact{"qeidentity-signer(shared-with-tcbinfo)", world.TQE, w.TcbSignerInQE.X.NotAfter, w.TcbSignerInQE.X.NotBefore, true, O1}
+		arts[8] = c06Artifact{"qeidentity-root-copy(shared-with-tcbinfo)", world.TQE, w.RootInQE.X.NotAfter, early, false, O1}
+		r.Probe("documents_share_one_issuer_chain")
+	}
 	// PCK CRL
 	w.PckCrl.This, w.PckCrl.Next = T0.AddDate(0, 0, -30), exp(9)
 	arts[9] = c06Artifact{"pckcrl-nextUpdate", world.TPckCrl, w.PckCrl.Next, early, false, O2}
@@ -253,13 +261,22 @@ func c06Run(r *core.Run) {
 			continue
 		}
 		expired := false
+		long := mkOpts(level, w.PCS, w.Pool, base) // one long-lived options value whose clock is advanced in place
 		for _, m := range marks {
 			if m.Before(T0) {
 				continue
 			}
 			ts := [5]time.Time{m, m, m, m, m}
 			check(item, "timeline", nil, level, ts)
-			o := verifyRaw(raw, mkOpts(level, w.PCS, w.Pool, ts))
+			*long.Now = *timeSet(ts)
+			o := verifyRaw(raw, long)
+			if want, why := c06Model(arts, poolWin, level, ts); want != o.Accepted() {
+				if o.Accepted() {
+					r.Violate("C06:accepted-out-of-date:long-lived-options:"+strings.ReplaceAll(why, " ", "_"), "level %s at %s through an options value used for earlier verifications: accepted although %s", optNames[level], m.Format(time.RFC3339), why)
+				} else {
+					r.Violate("C06:rejected-in-date:long-lived-options:"+errClass(o), "level %s at %s through an options value used for earlier verifications: rejected although everything is in date: %s", optNames[level], m.Format(time.RFC3339), o.ErrText())
+				}
+			}
 			if expired && o.Accepted() {
 				r.Violate("C06:accepted-after-expiry:timeline", "level %s: accepted at %s although a verification at an earlier instant had already failed for expiry", optNames[level], m.Format(time.RFC3339))
 			}
@@ -302,7 +319,7 @@ func init() {
 			return 24
 		},
 		Run:         c06Run,
-		MustProbe:   []string{"instant_exactly_at_expiry", "instant_carried_in_non_utc_zone"},
+		MustProbe:   []string{"instant_exactly_at_expiry", "instant_carried_in_non_utc_zone", "documents_share_one_issuer_chain"},
 		SimTimeNote: "span of simulated instants covered by the monotone timeline of each world (years)",
 	})
 }
